@@ -159,6 +159,7 @@ CHECKS["C19"] = {
         _sub("TestC19_FirstUse", 8, 8, sq=6, st=6, waves={"quick": 4, "thorough": 80}),
         _sub("TestC19_Sequential", 400, 16000, sq=2, st=2),
         _sub("TestC19_SharedHistory", 600, 24000, sq=6, st=6),
+        _sub("TestC19_StalledOpen", 200, 8000, sq=4, st=8),
     ],
     "watchdog": {"quick": 900, "thorough": 7200},
 }
